@@ -88,8 +88,9 @@ func (p *GoProg) applyOrient() {
 				}
 			}
 		}
-		p.normalForms(fd)
-		// if !(c) {B} else {A}  →  if c {A} else {B}
+		// if !(c) {B} else {A}  →  if c {A} else {B}; and an if/else on the *negation* of a frozen comparison
+		// (if a <= b {B} else {A} where the reference has a > b) is turned back the same way
+		negOp := map[token.Token]token.Token{token.EQL: token.NEQ, token.NEQ: token.EQL, token.LSS: token.GEQ, token.GEQ: token.LSS, token.GTR: token.LEQ, token.LEQ: token.GTR}
 		ast.Inspect(fd.Body, func(n ast.Node) bool {
 			ifs, ok := n.(*ast.IfStmt)
 			if !ok || ifs.Else == nil {
@@ -99,12 +100,87 @@ func (p *GoProg) applyOrient() {
 			if !ok {
 				return true
 			}
+			// guard style first: when exactly one branch leaves (return/break/continue/goto/panic), that branch is the
+			// `if` body and the other one follows it (the else is then dissolved by the normal forms)
+			bl, el := blockLeaves(ifs.Body), blockLeaves(eb)
+			if bl && el {
+				// both leave: the shorter one is the guard
+				count := func(b *ast.BlockStmt) int {
+					n := 0
+					ast.Inspect(b, func(x ast.Node) bool {
+						if x != nil {
+							n++
+						}
+						return true
+					})
+					return n
+				}
+				// a comparison keeps the polarity it has on the reference tree; otherwise the shorter branch is the guard
+				decided := false
+				if be, ok := ast.Unparen(ifs.Cond).(*ast.BinaryExpr); ok && len(ref) > 0 {
+					if nop, isCmp := negOp[be.Op]; isCmp {
+						xs, ys := p.Str(be.X), p.Str(be.Y)
+						switch {
+						case ref[orientEntry{be.Op.String(), xs, ys}] || ref[orientEntry{mirrorOp[be.Op].String(), ys, xs}]:
+							return true
+						case ref[orientEntry{nop.String(), xs, ys}] || ref[orientEntry{mirrorOp[nop].String(), ys, xs}]:
+							decided = true
+						}
+					}
+				}
+				if !decided && count(eb) >= count(ifs.Body) {
+					return true
+				}
+				bl = false
+			}
+			if bl && !el {
+				return true
+			}
+			if el && !bl {
+				nc := &ast.UnaryExpr{Op: token.NOT, OpPos: ifs.Cond.Pos(), X: &ast.ParenExpr{X: ifs.Cond, Lparen: ifs.Cond.Pos(), Rparen: ifs.Cond.End()}}
+				if tv, ok := p.Info.Types[ifs.Cond]; ok {
+					p.Info.Types[nc] = types.TypeAndValue{Type: tv.Type}
+					p.Info.Types[nc.X] = types.TypeAndValue{Type: tv.Type}
+				}
+				ifs.Cond = nc
+				ifs.Body, ifs.Else = eb, ifs.Body
+				return true
+			}
 			if u, ok := ast.Unparen(ifs.Cond).(*ast.UnaryExpr); ok && u.Op == token.NOT {
 				ifs.Cond = ast.Unparen(u.X)
 				ifs.Body, ifs.Else = eb, ifs.Body
+				return true
+			}
+			if be, ok := ast.Unparen(ifs.Cond).(*ast.BinaryExpr); ok && len(ref) > 0 {
+				if nop, isCmp := negOp[be.Op]; isCmp && p.pureExpr(be.X) && p.pureExpr(be.Y) {
+					xs, ys := p.Str(be.X), p.Str(be.Y)
+					if ref[orientEntry{be.Op.String(), xs, ys}] || ref[orientEntry{mirrorOp[be.Op].String(), ys, xs}] {
+						return true
+					}
+					isFloat := false
+					if t := p.Info.TypeOf(be.X); t != nil {
+						if b, ok := t.Underlying().(*types.Basic); ok && b.Info()&(types.IsFloat|types.IsComplex) != 0 {
+							isFloat = true
+						}
+					}
+					if isFloat {
+						return true
+					}
+					switch {
+					case ref[orientEntry{nop.String(), xs, ys}]:
+						be.Op = nop
+						ifs.Body, ifs.Else = eb, ifs.Body
+					case ref[orientEntry{mirrorOp[nop].String(), ys, xs}]:
+						be.X, be.Y = be.Y, be.X
+						be.Op = mirrorOp[nop]
+						ifs.Body, ifs.Else = eb, ifs.Body
+					}
+				}
 			}
 			return true
 		})
+		p.negationNormalForm(fd)
+		p.normalForms(fd)
 	}
 }
 
@@ -319,4 +395,146 @@ func (p *GoProg) normalForms(fd *ast.FuncDecl) {
 		}
 		return true
 	})
+}
+
+// negationNormalForm pushes `!` inwards: !(A || B) → !A && !B, !(A && B) → !A || !B, !!A → A, and !(x op y) → x nop y
+// for comparisons of non-floating-point operands (with NaN, !(a < b) is not a >= b).
+func (p *GoProg) negationNormalForm(fd *ast.FuncDecl) {
+	negCmp := map[token.Token]token.Token{token.EQL: token.NEQ, token.NEQ: token.EQL, token.LSS: token.GEQ, token.GEQ: token.LSS, token.GTR: token.LEQ, token.LEQ: token.GTR}
+	isFloat := func(e ast.Expr) bool {
+		t := p.Info.TypeOf(e)
+		if t == nil {
+			return true
+		}
+		b, ok := t.Underlying().(*types.Basic)
+		return ok && b.Info()&(types.IsFloat|types.IsComplex) != 0
+	}
+	boolTV := func(e ast.Expr, like ast.Expr) {
+		if tv, ok := p.Info.Types[like]; ok {
+			p.Info.Types[e] = types.TypeAndValue{Type: tv.Type}
+		}
+	}
+	var neg func(e ast.Expr) ast.Expr
+	var norm func(e ast.Expr) ast.Expr
+	neg = func(e ast.Expr) ast.Expr {
+		switch v := ast.Unparen(e).(type) {
+		case *ast.UnaryExpr:
+			if v.Op == token.NOT {
+				return norm(v.X)
+			}
+		case *ast.BinaryExpr:
+			switch v.Op {
+			case token.LOR, token.LAND:
+				op := token.LAND
+				if v.Op == token.LAND {
+					op = token.LOR
+				}
+				out := &ast.BinaryExpr{X: neg(v.X), Op: op, OpPos: v.OpPos, Y: neg(v.Y)}
+				boolTV(out, v)
+				return out
+			default:
+				if nop, ok := negCmp[v.Op]; ok && !isFloat(v.X) && !isFloat(v.Y) {
+					out := &ast.BinaryExpr{X: v.X, Op: nop, OpPos: v.OpPos, Y: v.Y}
+					boolTV(out, v)
+					return out
+				}
+			}
+		}
+		inner := norm(e)
+		switch inner.(type) {
+		case *ast.BinaryExpr:
+			pe := &ast.ParenExpr{X: inner, Lparen: e.Pos(), Rparen: e.End()}
+			boolTV(pe, e)
+			inner = pe
+		}
+		out := &ast.UnaryExpr{Op: token.NOT, OpPos: e.Pos(), X: inner}
+		boolTV(out, e)
+		return out
+	}
+	norm = func(e ast.Expr) ast.Expr {
+		switch v := e.(type) {
+		case *ast.ParenExpr:
+			// keep the parentheses only where they still matter
+			in := norm(v.X)
+			if in != v.X {
+				if _, isBin := in.(*ast.BinaryExpr); isBin {
+					pe := &ast.ParenExpr{X: in, Lparen: v.Lparen, Rparen: v.Rparen}
+					boolTV(pe, v)
+					return pe
+				}
+				return in
+			}
+			return e
+		case *ast.UnaryExpr:
+			if v.Op == token.NOT {
+				switch ast.Unparen(v.X).(type) {
+				case *ast.BinaryExpr, *ast.UnaryExpr:
+					n := neg(v.X)
+					if u, still := n.(*ast.UnaryExpr); still && u.Op == token.NOT && ast.Unparen(u.X) == ast.Unparen(v.X) {
+						return e
+					}
+					return n
+				}
+			}
+			return e
+		case *ast.BinaryExpr:
+			if v.Op == token.LOR || v.Op == token.LAND {
+				x, y := norm(v.X), norm(v.Y)
+				// a conjunction nested in a disjunction keeps its parentheses (printing only)
+				if x != v.X || y != v.Y {
+					out := &ast.BinaryExpr{X: x, Op: v.Op, OpPos: v.OpPos, Y: y}
+					boolTV(out, v)
+					return out
+				}
+			}
+			return e
+		}
+		return e
+	}
+	// conditions of if / for and boolean right-hand sides
+	ast.Inspect(fd.Body, func(n ast.Node) bool {
+		switch x := n.(type) {
+		case *ast.IfStmt:
+			x.Cond = norm(x.Cond)
+		case *ast.ForStmt:
+			if x.Cond != nil {
+				x.Cond = norm(x.Cond)
+			}
+		case *ast.AssignStmt:
+			for i, r := range x.Rhs {
+				if t := p.Info.TypeOf(r); t != nil {
+					if b, ok := t.Underlying().(*types.Basic); ok && b.Info()&types.IsBoolean != 0 {
+						x.Rhs[i] = norm(r)
+					}
+				}
+			}
+		case *ast.ReturnStmt:
+			for i, r := range x.Results {
+				if t := p.Info.TypeOf(r); t != nil {
+					if b, ok := t.Underlying().(*types.Basic); ok && b.Info()&types.IsBoolean != 0 {
+						x.Results[i] = norm(r)
+					}
+				}
+			}
+		}
+		return true
+	})
+}
+
+// blockLeaves: the block ends in a statement that leaves it for good.
+func blockLeaves(b *ast.BlockStmt) bool {
+	if b == nil || len(b.List) == 0 {
+		return false
+	}
+	switch l := b.List[len(b.List)-1].(type) {
+	case *ast.ReturnStmt, *ast.BranchStmt:
+		return true
+	case *ast.ExprStmt:
+		if call, ok := l.X.(*ast.CallExpr); ok {
+			if id, ok := call.Fun.(*ast.Ident); ok && id.Name == "panic" {
+				return true
+			}
+		}
+	}
+	return false
 }
